@@ -14,7 +14,7 @@ use std::time::{Duration, Instant};
 pub const PAYLOADS: [&str; 22] = [
     "|", "&", ";", "<", ">", "#", "a>b", "a|b", "x &", "<f", ">f", ">>f", "2>&1", ";x", "#c", "a b", "&&", "||", "<<<", "a;b", "1>&2", "a&",
 ];
-pub const DELIVERY: [&str; 6] = ["$V", "${V}", "$(vh-emit K)", "`vh-emit K`", "glob", "$V-local"];
+pub const DELIVERY: [&str; 8] = ["$V", "${V}", "$(vh-emit K)", "`vh-emit K`", "glob", "$V-local", "$(printf %s 'P')", "`printf %s 'P'`"];
 pub const POSITIONS: [&str; 6] = ["only", "first", "middle", "last", "before-pipe", "before-semicolon"];
 
 #[derive(Clone)]
@@ -33,6 +33,8 @@ impl Case {
             "${V}" => "${V}".to_string(),
             "$(vh-emit K)" => format!("$(vh-emit {})", k),
             "`vh-emit K`" => format!("`vh-emit {}`", k),
+            "$(printf %s 'P')" => format!("$(printf %s '{}')", PAYLOADS[k]),
+            "`printf %s 'P'`" => format!("`printf %s '{}'`", PAYLOADS[k]),
             _ => format!("g{}/*", k),
         };
         if self.dq {
